@@ -53,7 +53,8 @@ Qed.
 
 Fixpoint eval_nat (e : expr) : forall rho k k', krel k k' -> h (eval O R err rho e k) = eval O R' err' rho e k'.
 Proof.
-  destruct e; intros rho k k' Hk; simpl.
+  destruct e as [v|x|e a|o a b|a rest|a b|a b|a|c a b|elt x it cond|elt x it cond|e key|e n|e|es|neg e c];
+    intros rho k k' Hk; simpl.
   - apply Hk.
   - apply Hk.
   - apply eval_nat. intros [ | | | | |f| ]; auto.
@@ -84,4 +85,63 @@ Proof.
   - apply eval_nat. intros v. apply eval_nat. intros vc. destruct vc; auto.
     induction l as [|x l IH]; [apply Hk|]. apply veq_k_nat. intros [|]; [apply Hk|apply IH].
 Qed.
+
+Variables (kret : env -> val -> R) (kret' : env -> val -> R').
+Hypothesis Hret : forall rho v, h (kret rho v) = kret' rho v.
+
+Fixpoint exec_nat (s : stmt) : forall rho k k', krel k k' ->
+  h (exec O R kret err s rho k) = exec O R' kret' err' s rho k'.
+Proof.
+  assert (Hblock : forall l rho k k', krel k k' ->
+            h ((fix block (l : list stmt) (rho : env) (k : env -> R) : R :=
+                  match l with [] => k rho | s :: l' => exec O R kret err s rho (fun rho' => block l' rho' k) end) l rho k) =
+            (fix block (l : list stmt) (rho : env) (k : env -> R') : R' :=
+                  match l with [] => k rho | s :: l' => exec O R' kret' err' s rho (fun rho' => block l' rho' k) end) l rho k'
+            -> True) by auto.
+  clear Hblock.
+  destruct s as [ts e|t o e|c th el|x e|e|x it body|]; intros rho k k' Hk; simpl.
+  - apply eval_nat. intros v. apply Hk.
+  - apply eval_nat. intros v. apply arith_k_nat. intros r. apply Hk.
+  - apply eval_nat. intros vc. apply bool_k_nat. intros [|].
+    + generalize rho. induction th as [|s1 th IH]; intros rho0; [apply Hk|]. apply exec_nat. intros rho'. apply IH.
+    + generalize rho. induction el as [|s1 el IH]; intros rho0; [apply Hk|]. apply exec_nat. intros rho'. apply IH.
+  - apply eval_nat. intros v. destruct (lookup x rho); auto. destruct v; auto.
+  - apply eval_nat. intros v. apply Hret.
+  - apply eval_nat. intros vit. destruct vit; auto.
+    apply gen_iter_nat; [|exact Hk]. intros v rho0 kk kk' Hkk.
+    generalize (update x v rho0). induction body as [|s1 body IH]; intros rho1; [apply Hkk|].
+    apply exec_nat. intros rho'. apply IH.
+  - apply Hk.
+Qed.
+
+Lemma exec_block_nat : forall l rho k k', krel k k' ->
+  h (exec_block O R kret err l rho k) = exec_block O R' kret' err' l rho k'.
+Proof.
+  induction l as [|s l IH]; intros rho k k' Hk; simpl; [apply Hk|].
+  apply exec_nat. intros rho'. now apply IH.
+Qed.
 End Nat.
+
+(* first-order outcome of a run *)
+Inductive outcome := ONorm (rho : env) (r : option val) | OErr (m : string).
+Definition run_out (O : qops) (body : list stmt) (rho : env) : outcome := run O body rho ONorm OErr.
+
+Theorem run_natural (O : qops) {A} (body : list stmt) (rho : env) (obs : env -> option val -> A) (kerr : string -> A) :
+  run O body rho obs kerr =
+  match run_out O body rho with ONorm rho' r => obs rho' r | OErr m => kerr m end.
+Proof.
+  unfold run_out, run. symmetry.
+  apply (exec_block_nat O outcome A
+           (fun o => match o with ONorm rho' r => obs rho' r | OErr m => kerr m end) OErr kerr (fun m => eq_refl)
+           (fun rho v => ONorm rho (Some v)) (fun rho v => obs rho (Some v)) (fun rho v => eq_refl)).
+  intros rho'. reflexivity.
+Qed.
+Print Assumptions run_natural.
+
+(* consequence: a property established with a Prop observer and the impossible error continuation holds of the
+   outcome *)
+Corollary run_prop_outcome (O : qops) (body : list stmt) (rho : env) (P : env -> option val -> Prop) :
+  run O body rho P (fun _ => False) -> exists rho' r, run_out O body rho = ONorm rho' r /\ P rho' r.
+Proof.
+  rewrite run_natural. destruct (run_out O body rho) as [rho' r|m]; [eauto|contradiction].
+Qed.
